@@ -52,6 +52,8 @@ type knownFinding struct {
 // Ctx is the state of one property check.
 type Ctx struct {
 	only func(key string) bool // when set, Check records only the obligations it accepts
+	// joinBeforeReturnOnly: the fork/join rule looks for a return reachable without the join, nothing else
+	joinBeforeReturnOnly bool
 
 	Prop     string
 	Tier     string
